@@ -30,3 +30,21 @@ GROUPS = [
                                   'qgrow_add', 'qgrow_toarray', 'qgrow', 'qgrow_free', 'qlist'], [dict(LN=0, VARIANT=v) for v in (0, 1, 2)],
        bound='two pushed elements of 1..2 symbolic bytes'),
 ]
+
+
+def c13(groups):
+    """C13 overlay on the operations the property names (insert, copying get / pop / remove, flatten), lists of 0..2 elements"""
+    out = []
+    for g in groups:
+        if g['name'] not in ('list_add', 'list_access', 'list_flatten'):
+            continue
+        h = dict(g)
+        h['name'] = g['name'].replace('list_', 'list_c13_')
+        h['props'] = ['C13']
+        h['defines'] = list(g.get('defines', [])) + ['-DQV_C13']
+        h['instances'] = [dict(i) for i in g['instances'] if i.get('LN') in (0, 1, 2) and i.get('tier') != 'thorough']
+        out.append(h)
+    return out
+
+
+GROUPS = GROUPS + c13(GROUPS)
